@@ -253,10 +253,13 @@ class DictReader:
             if ref_changed_through_recursion:
                 reference = re.sub(pattern=r"(^\$|\[.+$)", repl="", string=reference)  # remove leading $ or trailing [
             if indexing:
-                with contextlib.suppress(Exception):
+                try:
                     # return the resolved value at the specified index
                     # (the index applies to the value the reference chain ends in, not to an intermediate reference text)
                     value = eval(f"_resolved{indexing}", {}, {"_resolved": value})  # noqa: S307
+                except Exception:  # noqa: BLE001
+                    # the index addresses no element (out of range, value is no list): not resolvable
+                    value = None
         return value
 
     @staticmethod
